@@ -37,6 +37,24 @@ def run(ctx):
     for i in range(ngraphs):
         ip = rng.choice([RDF_TYPE, RDF_TYPE, EX + 'inst'])
         g = gen.gen_graph(rng, inst_prop=ip) if rng.random() < 0.7 else gen.gen_schema_graph(rng, inst_prop=ip)
+        if i % 5 == 4:
+            # a property with several values per instance, the number of values varying between instances (two or three exact cardinalities
+            # with different frequencies), the values partly in classes, partly blank nodes, partly untyped: thresholds between the
+            # frequencies of the cardinalities must not make a key come and go
+            ip = RDF_TYPE
+            g = []
+            n_inst = rng.randint(4, 6)
+            others = [I('t%d' % k) for k in range(3)]
+            for o in others[:2]:
+                g.append((o, RDF_TYPE, I('T')))
+            for j in range(n_inst):
+                g.append((I('m%d' % j), RDF_TYPE, I('M')))
+                for v in range(rng.choice([1, 1, 2, 2, 3])):
+                    g.append((I('m%d' % j), EX + 'p', rng.choice(others + [I('u%d' % v), B('ub%d' % v)])))
+                for v in range(rng.choice([1, 2])):
+                    g.append((I('m%d' % j), EX + 'q', rng.choice([I('u%d' % v), B('ub%d' % v)])))
+            g = list(dict.fromkeys(g))
+            rng.shuffle(g)
         cfg0 = gen.gen_cfg(rng, g, inst_prop=ip, presentation=False, allow_cap=False, allow_or=True)
         cfg0['report'] = 'mixed'
         cfg0['disable_comments'] = False
